@@ -33,6 +33,7 @@ Fixpoint semL (vs : list string) (f : form) (trace : list (list bool))
     : list bool :=
   match f with
   | FVar v => map (fun bits => lookup vs bits v) trace
+  | FAtom a => map (fun bits => lookup vs bits a) trace
   | FConst b => map (fun _ : list bool => b) trace
   | FNot f => map negb (semL vs f trace)
   | FBin o f g => map2 (bop o) (semL vs f trace) (semL vs g trace)
@@ -72,6 +73,10 @@ Fixpoint resolve (names : list string) (f : tform) : iform :=
               | Some k => IVar k
               | None => IConst false
               end
+  | TAtom a => match index_of a names with
+               | Some k => IVar k
+               | None => IConst false
+               end
   | TConst b => IConst b
   | TNot f => INot (resolve names f)
   | TBin o f g => IBin o (resolve names f) (resolve names g)
@@ -156,7 +161,7 @@ Definition equiv_on (names : list string) (a b : tform) : bool :=
 
 Fixpoint no_temporal (f : tform) : bool :=
   match f with
-  | TVar _ | TConst _ => true
+  | TVar _ | TAtom _ | TConst _ => true
   | TNot f | TNext f => no_temporal f
   | TBin _ f g => no_temporal f && no_temporal g
   | TIte c a b => no_temporal c && no_temporal a && no_temporal b
